@@ -452,7 +452,7 @@ func main() {
 	run.Header = "From FunV Require Import Base.Tac Corr.C01_corr."
 	run.Footer = "Definition M := Eval vm_compute in mismatches cases.\nPrint M."
 	run.CaseType = "case"
-	run.Rule = "every construct (Split, ProcessParallel, ParallelForEach, Worker, Map, ParallelBuffer, Buffer, MergeIterators, GenerateParallel, concurrent ReadOne) x workers {1,2,3,8} x lengths {0,1,2,w-1,w,w+1,7,16,33,64} x buffer sizes {0,1,len} (Buffer, ReadOne) x GOMAXPROCS {1,2,4,8} x seeded Gosched/sleep jitter in every user function; GenerateParallel additionally x end-of-stream kind {io.EOF, error wrapping io.EOF, real error = aborted run (only no-invention/no-duplication is required)} x {free schedule, driver-controlled schedule: the call producing the last value returns only after another worker's call reported the end} x workers {2,3,8} x lengths {1,2,3,4,7}; distinct = distinct (construct, workers, cap, end kind, schedule, input); non-trivial = at least 2 items"
+	run.Rule = "every construct (Split, ProcessParallel, ParallelForEach, Worker, Map, ParallelBuffer, Buffer, MergeIterators, GenerateParallel, concurrent ReadOne) x workers {1,2,3,8} x lengths {0,1,2,w-1,w,w+1,7,16,33,64} x buffer sizes {0,1,len} (Buffer, ReadOne) x GOMAXPROCS {1,2,4,8} x seeded Gosched/sleep jitter in every user function; Map additionally with 2000 distinct items, 4/8 workers, GOMAXPROCS 8, no jitter (volume); GenerateParallel additionally x end-of-stream kind {io.EOF, error wrapping io.EOF, real error = aborted run (only no-invention/no-duplication is required)} x {free schedule, driver-controlled schedule: the call producing the last value returns only after another worker's call reported the end} x workers {2,3,8} x lengths {1,2,3,4,7}; distinct = distinct (construct, workers, cap, end kind, schedule, input); non-trivial = at least 2 items"
 
 	if run.Replay != "" {
 		var c Case
@@ -517,6 +517,24 @@ func main() {
 					}
 				}
 			}
+		}
+	}
+	// Map under volume: many distinct items, no jitter, full parallelism - a pairing mistake between workers
+	// (a value sent for somebody else's item) shows as one item lost and another duplicated
+	for round := 0; round < run.Pick(16, 120); round++ {
+		for _, w := range []int{4, 8} {
+			r := run.Rand.Fork()
+			in := make([]int64, 2000)
+			for i := range in {
+				in[i] = int64(i)
+			}
+			c := Case{ID: id, Construct: cMap, Workers: w, Input: in, Procs: 8, Jitter: 0}
+			_ = r
+			id++
+			if run.NOracle >= 5 {
+				continue
+			}
+			execCase(run, c, false)
 		}
 	}
 	// GenerateParallel: a value that is in flight when another worker reports the end of the stream
